@@ -104,7 +104,14 @@ extern crate std;
 use core::future::Future;
 use futures_core::Stream;
 
+#[cfg(not(futures_buffered_verif_model))]
 mod waker_list;
+#[cfg(futures_buffered_verif_model)]
+#[path = "/verif/hooks/waker_model.rs"]
+mod waker_list;
+#[cfg(futures_buffered_verif)]
+#[path = "/verif/hooks/verif.rs"]
+pub mod verif;
 mod buffered;
 mod futures_ordered;
 mod futures_ordered_bounded;
